@@ -63,6 +63,22 @@ Definition ctor_types_statement : Prop := forallb (ctor_ok cxx_table) ctor_types
 Theorem ctor_types : ctor_types_statement.
 Proof. vm_compute. reflexivity. Qed.
 
+(* the two affix setters of Fragment touch the cached strings only under `if (!ret)` (a failed call changes nothing:
+   fix bf9d920), and SetPrefix refreshes the cached namespace there (a prefix may carry a namespace) *)
+Definition affix_tail_ok (meth : string) (need_ns : bool) : bool :=
+  match find (fun r => String.eqb (rcls r) "Fragment" && String.eqb (rmeth r) meth) cxx_table with
+  | Some r => match rbody r with
+              | ForwardThen c tail =>
+                  String.eqb (cfun c) "gd_alter_affixes" && prefix "if (!ret) { free(prefix); free(suffix);" tail &&
+                  (negb need_ns || match index 0 "ns = gd_fragment_namespace(D->D, ind, NULL);" tail with Some _ => true | None => false end) &&
+                  match index 0 "ret = gd_fragment_affixes(D->D, ind,&prefix,&suffix);" tail with Some _ => true | None => false end
+              | _ => false
+              end
+  | None => false
+  end.
+Theorem fragment_affix_setters_shape : affix_tail_ok "SetPrefix" true = true /\ affix_tail_ok "SetSuffix" false = true.
+Proof. vm_compute. split; reflexivity. Qed.
+
 (* ---- the mapping doc/README.cxx documents, derived without the C++ sources:
    documented signature + documented C function + C prototype => expected call ---- *)
 (* no forwarding method of Dirfile/Fragment that README.cxx documents deviates from it *)
